@@ -6,7 +6,8 @@ import re
 
 BASICS = ["int", "string", "bool", "float64", "error", "any", "byte", "uint8",
           "int8", "int64", "uint", "float32", "complex128", "uintptr", "rune", "uint16"]
-PKG_NAMES = ["store", "store", "cache", "api", "cache", "v3", "util", "store"]
+PKG_NAMES = ["store", "store", "cache", "api", "cache", "v3", "util", "store", "kessoku"]
+DECLARED = ["store", "cache", "api", "v3", "util", "store_1", "cache_1", "x", "kessoku_1"]
 
 def arity(name):
     return (name - 16) % 3
@@ -108,8 +109,13 @@ def gen_line(rng):
     names = [rng.choice(PKG_NAMES) for _ in range(npk)]
     cur = rng.randint(0, npk - 1) if rng.chance(0.93) else None
     t = gen_type(rng, npk, rng.randint(1, 4), rng.chance(0.15))
-    line = "T %s | %s | %s" % ("-" if cur is None else cur, " ".join(names), sexpr(t))
-    return line, dict(cur=cur, names=names, type=t)
+    # identifiers declared at package level in the current package: no import may take their names (nor `kessoku`)
+    declared = [rng.choice(DECLARED) for _ in range(rng.randint(0, 3))] if (cur is not None and rng.chance(0.6)) else []
+    if declared or (cur is not None and rng.chance(0.3)):
+        line = "T %d | %s | %s | %s" % (cur, " ".join(names), " ".join(declared), sexpr(t))
+    else:
+        line = "T %s | %s | %s" % ("-" if cur is None else cur, " ".join(names), sexpr(t))
+    return line, dict(cur=cur, names=names, type=t, pre=declared + ["kessoku"])
 
 PRE_NAMES = ["store", "store0", "cache", "cache0", "api", "v3", "util", "store1", "app", "fmt", "x", "store00"]
 
